@@ -230,4 +230,21 @@ class DictField(Field):
         """
         if not self._use_proxy:
             return value
+        if isinstance(value, dict) and not isinstance(value, DictProxy):
+            # keys and values are stored in their basic form too (see to_basic)
+            converted = {}
+            for key, val in value.items():
+                try:
+                    py_key = self.key_field.to_python(cfg, key)  # type: ignore
+                    converted[py_key] = self.value_field.to_python(cfg, val)  # type: ignore
+                except ValidationError:
+                    raise
+                except Exception as exc:
+                    raise ValidationError(
+                        cfg,
+                        self,
+                        "invalid dictionary value: %s" % exc,
+                        ref_path="%s[%s]" % (self._ref_path, key),
+                    ) from exc
+            value = converted
         return DictProxy(cfg, self, value)
